@@ -212,7 +212,7 @@ class Harness:
                 if k == "i":
                     beh["cut"] = min(n, len(ih))
                 elif k == "t":
-                    beh["cut"] = len(ih) + min(n, len(hh))
+                    beh["cut"] = len(ih) + min(n, max(len(hh) - 1, 0))
                 elif k == "b":
                     beh["cut"] = len(ih) + len(hh) + (0 if n == 0 or not bs else body_offset(len(A), d["ch"], min(n, len(A)) or None))
                 elif k == "z":
@@ -267,6 +267,8 @@ class Harness:
         r = c.response()
         c.close()
         self.icap.event(gate).set()
+        if r is None:
+            time.sleep(0.3)      # a dying squid needs a moment to be seen as dead
         if d["m"] == "rs":
             # the origin thread may still be blocked in its gate wait; nothing to collect from it
             pass
@@ -318,7 +320,7 @@ class Harness:
         rounds = 0
         while not self.squid.alive() and rounds < 3:
             rounds += 1
-            dead = [i for i, o in enumerate(outs) if o.startswith("abort:")]
+            dead = [i for i, o in enumerate(outs) if o.startswith("abort:") or o.startswith("c=0:")]
             self.restarts += 1
             self.start_squid()
             for i in dead:
